@@ -117,7 +117,7 @@ def layout(w, defs, fmt_json, main_mode):
     return files
 
 
-def enforcer(P, w, defs, absolute):
+def enforcer(P, w, defs, absolute, late=False):
     # d0 and d3 are configured but missing (one before, one after the
     # existing directories)
     dirs = ['d0', 'd1', 'd2', 'd3']
@@ -125,6 +125,11 @@ def enforcer(P, w, defs, absolute):
         dirs = [w.path(d) for d in dirs]
     conf = world.new_conf(w.root, policy_dirs=dirs)
     enf = P.Enforcer(conf)
+    if late:
+        # the service registers its defaults only after a first load and a
+        # first decision have happened
+        enf.load_rules()
+        enf.enforce('svc:nowhere', {}, {'roles': []})
     if 0 in defs:
         enf.register_defaults([P.RuleDefault(n, r)
                                for n, r in defs[0].items()])
@@ -201,7 +206,9 @@ def run(job, seed):
                         if listdir_seen is None and os.path.isdir(
                                 w.path('d1')):
                             listdir_seen = os.listdir(w.path('d1'))
-                        enf = enforcer(P, w, defs, absolute)
+                        late = bool(0 in defs and not fmt_json and
+                                    (idx >> 1) % 2)
+                        enf = enforcer(P, w, defs, absolute, late)
                         acc.case(job['space'],
                                  any(len(s) >= 2 for s in subsets))
                         for name, sub in zip(names, subsets):
@@ -219,7 +226,7 @@ def run(job, seed):
                                     {'defs': {str(k): v
                                               for k, v in defs.items()},
                                      'json_files': sorted(fmt_json),
-                                     'main': main_mode,
+                                     'main': main_mode, 'late': late,
                                      'absolute_dirs': absolute}, exp, got,
                                     job['space'])
                             acc.outcome('winner-%s' % _lname(exp))
